@@ -606,9 +606,12 @@ def rule_cover(ctx):
                 while e.get("k") == "MethodCall":
                     names.append(e["name"])
                     e = strip(e["recv"])
-                if "axis_chunks_iter" in names and "collect" in names:
-                    i0, i1 = names.index("collect"), names.index("axis_chunks_iter")
+                gen = next((g for g in ("axis_chunks_iter", "exact_chunks", "axis_chunks_iter_mut", "exact_chunks_mut") if g in names), None)
+                if gen is not None and "collect" in names:
+                    i0, i1 = names.index("collect"), names.index(gen)
                     trunc = [x for x in names[i0 + 1:i1] if x in ("take", "skip", "filter", "step_by", "take_while", "skip_while", "filter_map")]
+                    if gen.startswith("exact_chunks"):
+                        trunc.append(gen)       # exact_chunks yields only whole chunks: the short last one is dropped
                     lists[n["pat"]["local"]] = (n, trunc, n["pat"]["name"])
         if len(lists) < 2:
             res.instance("%s : chunk lists" % key)
